@@ -10,7 +10,7 @@ for d in sorted(glob.glob(os.path.join(ROOT, "seeded", "*", ""))):
         continue
     meta = json.load(open(mp))
     res = open(os.path.join(d, "result.txt")).read() if os.path.exists(os.path.join(d, "result.txt")) else ""
-    checks = re.findall(r"CHECK (C\d+) rc=(\d+)\s*(.*)", res)
+    checks = re.findall(r"CHECK (C\d+) rc=(\d+)[ \t]*(.*)", res)
     caught = [c for c, rc, _ in checks if rc == "1"]
     silent = [c for c, rc, _ in checks if rc == "0"]
     other = [f"{c}:rc={rc}" for c, rc, _ in checks if rc not in ("0", "1")]
